@@ -127,6 +127,8 @@ def run_case(h, mname, args, ret, ih, oh, ctx, res, check_client=True):
     if not tagged.equal(ret, val):
         V('result', '', 'function returned %r, response denotes %r; response=%s' % (ret, val, o.out[:400]))
         outcome = 'result'
+    if oh is not None:
+        hdrs = {c: (hdrs or {}).get(c) for c in (m.get('out_header') or [])}
     if oh is not None and not tagged.equal(oh, hdrs):
         V('out-header', '', 'function set header %r, response carries %r' % (oh, hdrs))
         outcome = 'out-header'
